@@ -392,6 +392,18 @@ class Ctx:
         sub.fallback = fr.module
         return sub
 
+    def generalise(self, I, fr, cut, st):
+        """Assert-then-forget: prove the lemma of the current values, then keep only the lemma about fresh values."""
+        text = cut["lemma"]
+        tree = ast.parse(text.strip(), mode="eval")
+        g = I.truth(I.eval(tree.body, self._spec_frame(fr)))
+        self.check(g, f"{self.contract.name}/{fr.func.qualname}.cut@{st.targets[0].id}", "cut", text, line=st.lineno)
+        for nm in cut.get("forget", []):
+            cur = fr.locals.get(nm)
+            sort = "Int" if (cur is not None and sym.is_intlike(cur) and not sym.is_reallike(cur)) else "Real"
+            fr.locals[nm] = self.fresh(nm + "~", "Real" if sort == "Real" else "Int")
+        self.assume(I.truth(I.eval(tree.body, self._spec_frame(fr))))
+
     def _check_invs(self, lc, fr, kind):
         for i, text in enumerate(lc.invariants):
             sub = self._spec_frame(fr)
